@@ -227,35 +227,55 @@ def _is_pseudo(r) -> bool:
 
 def _crash_class(d) -> str:
     text = str(d[3])
-    if re.search(r"Pickl|FrozenInstanceError|BrokenProcessPool|concurrent\.futures", text):
+    if re.search(r"[Pp]ickl|FrozenInstanceError|BrokenProcessPool|concurrent\.futures", text):
         return "parallel worker result cannot be transferred between processes"
     m = re.match(r"\s*((?:\w+\.)*\w+)", text)
     return (m.group(1) if m else "?")[:60]
 
 
-def classify(ra, rb):
-    """None if equal, else (code, kind, message-class-or-'', da, db)."""
+def classify_all(ra, rb) -> list:
+    """[] if equal, else one (code, kind, message-class-or-'', da, db) per differing diagnostic (distinct suffixes only;
+    in emission order of `ra`)."""
     A, B = [tuple(d) for d in ra], [tuple(d) for d in rb]
     if A == B:
-        return None
+        return []
     if _is_pseudo(A) or _is_pseudo(B):
         # one side is not a list of diagnostics at all (crash of the CLI / exception escaping the checker)
         crash = A[0] if _is_pseudo(A) else B[0]
         other = (B[0] if B else None) if _is_pseudo(A) else (A[0] if A else None)
         da, db = (crash, other) if _is_pseudo(A) else (other, crash)
-        return crash[0], "content", _crash_class(crash), da, db
+        return [(crash[0], "content", _crash_class(crash), da, db)]
     ca, cb = collections.Counter(A), collections.Counter(B)
     if ca == cb:
         i = next(i for i in range(len(A)) if A[i] != B[i])
-        return A[i][0], "order-of-diagnostics", "", A[i], B[i]
-    # first diagnostic (in emission order) of A that B does not have, and B's diagnostic at the same place
+        return [(A[i][0], "order-of-diagnostics", "", A[i], B[i])]
     only_a = [d for d in A if ca[d] > cb[d]]
     only_b = [d for d in B if cb[d] > ca[d]]
-    if not only_a:
-        db = only_b[0]
-        return db[0], "content", msg_class(None, db), None, db
-    da = only_a[0]
-    db = next((d for d in only_b if d[:3] == da[:3]), None)
+    out, seen, used_b = [], set(), set()
+    for da in only_a:
+        j = next((j for j, d in enumerate(only_b) if j not in used_b and d[:3] == da[:3]), None)
+        if j is not None:
+            used_b.add(j)
+        c = _classify_pair(da, only_b[j] if j is not None else None)
+        if suffix_of(c) not in seen:
+            seen.add(suffix_of(c))
+            out.append(c)
+    for j, db in enumerate(only_b):
+        if j not in used_b:
+            c = (db[0], "content", msg_class(None, db), None, db)
+            if suffix_of(c) not in seen:
+                seen.add(suffix_of(c))
+                out.append(c)
+    return out
+
+
+def classify(ra, rb):
+    """None if equal, else the classification of the first differing diagnostic."""
+    cs = classify_all(ra, rb)
+    return cs[0] if cs else None
+
+
+def _classify_pair(da, db):
     if db is None:
         return da[0], "content", msg_class(da, None), da, None
     ma, mb = str(da[3]), str(db[3])
@@ -268,6 +288,15 @@ def classify(ra, rb):
     if len(_PROTO_RE.findall(ma)) != len(_PROTO_RE.findall(mb)) and _PROTO_RE.sub("", ma) == _PROTO_RE.sub("", mb):
         # TypedValue.__str__ prints the member list only when the Value object's lazily-filled type object is there
         return "*", "content", "protocol member list shown or hidden", da, db
+    if "(Protocol with members " in ma:
+        # TypeObject.__str__ / the protocol check iterate the set TypeObject.protocol_members: whatever message embeds
+        # a protocol type shows it
+        pa, pb = _PROTO_RE.sub(_sort_proto, ma), _PROTO_RE.sub(_sort_proto, mb)
+        if pa == pb:
+            return "*", "listed-names-order", "protocol member list", da, db
+        ha, hb = [next((l for l in x.split("\n") if l.strip()), "") for x in (pa, pb)]
+        if ha == hb and "(Protocol with members " in ha:
+            return "*", "content", "protocol member reported as the failing one", da, db
     ma, mb = canon_union(ma), canon_union(mb)
     if ma == mb or sorted(ma.split("\n")) == sorted(mb.split("\n")):
         # (members of a union, or the per-member detail lines of a message about a union)
@@ -275,6 +304,11 @@ def classify(ra, rb):
     if canon_names(ma) == canon_names(mb):
         return da[0], "listed-names-order", msg_class(da, db), da, db
     return da[0], "content", msg_class(da, db), da, db
+
+
+def _sort_proto(m) -> str:
+    inner = m.group(0)[len(" (Protocol with members "):-1]
+    return " (Protocol with members " + ", ".join(sorted(inner.split(", "))) + ")"
 
 
 def text_inside_internal_repr(text: str, pos: int) -> bool:
@@ -290,8 +324,7 @@ def same_wrt(c, r_first, r_other) -> bool:
     """Do two renderings agree as far as the difference `c` is concerned (other nondeterminism in the same program
     must not confound the attribution of this one)?"""
     if c[1] == "order-of-diagnostics" or (c[3] is None and c[4] is None):
-        c2 = classify(r_first, r_other)
-        return c2 is None or suffix_of(c2) != suffix_of(c)
+        return all(suffix_of(c2) != suffix_of(c) for c2 in classify_all(r_first, r_other))
     for d in (c[3], c[4]):
         if d is not None and (tuple(d) in {tuple(x) for x in r_first}) != (tuple(d) in {tuple(x) for x in r_other}):
             return False
@@ -423,9 +456,7 @@ def repeat_diffs(rs: list) -> list:
     out = []
     warm = rs[WARM_RUNS:]
     for r in warm[1:]:
-        c = classify(warm[0], r)
-        if c is not None:
-            out.append(c)
+        out.extend(classify_all(warm[0], r))
     return out
 
 
@@ -481,8 +512,7 @@ def cli_compare(files: dict, workdir: str, singles: list):
         got = cli_run(workdir, args, vnames, vname + str(n))
         n += 1
         for nm in vnames:
-            c = classify(base.get(nm, ()), got.get(nm, ()))
-            if c is not None:
+            for c in classify_all(base.get(nm, ()), got.get(nm, ())):
                 diffs.append((nm, vname, c, (["."], args)))
     return diffs, n
 
@@ -667,11 +697,11 @@ def shard(ctx) -> None:
     for seed, ks in groups.items():
         for p in progs:
             for k in ks[1:]:
-                c = classify(p.child[ks[0]], p.child[k])
-                if c is None or suffix_of(c) in p.found:
-                    continue
-                if not escalate(p, suffix_of(c), "layout"):
-                    p.found[suffix_of(c)] = ("layout", c, {"envs": [envs[ks[0]], envs[k]]})
+                for c in classify_all(p.child[ks[0]], p.child[k]):
+                    if suffix_of(c) in p.found:
+                        continue
+                    if not escalate(p, suffix_of(c), "layout"):
+                        p.found[suffix_of(c)] = ("layout", c, {"envs": [envs[ks[0]], envs[k]]})
     # hashseed: interpreters with different seeds disagree (and those with the same seed agree)
     need_confirm: dict = {}
     if BASE_SEED in groups:
@@ -680,19 +710,17 @@ def shard(ctx) -> None:
             if seed == BASE_SEED:
                 continue
             for pi, p in enumerate(progs):
-                c = classify(p.child[k0], p.child[ks[0]])
-                if c is None or suffix_of(c) in p.found:
-                    continue
-                suf = suffix_of(c)
-                if escalate(p, suf, "hashseed"):
-                    continue
-                extra = {"envs": [envs[k0], envs[ks[0]]]}
-                if len(ks) > 1:
-                    stable = all(same_wrt(c, p.child[ks[0]], p.child[k]) for k in ks[1:])
-                    p.found[suf] = ("hashseed" if stable else "layout", c, extra)
-                else:
-                    p.found[suf] = ("hashseed", c, extra)
-                    need_confirm.setdefault(ks[0], []).append((pi, suf))
+                for c in classify_all(p.child[k0], p.child[ks[0]]):
+                    suf = suffix_of(c)
+                    if suf in p.found or escalate(p, suf, "hashseed"):
+                        continue
+                    extra = {"envs": [envs[k0], envs[ks[0]]]}
+                    if len(ks) > 1:
+                        stable = all(same_wrt(c, p.child[ks[0]], p.child[k]) for k in ks[1:])
+                        p.found[suf] = ("hashseed" if stable else "layout", c, extra)
+                    else:
+                        p.found[suf] = ("hashseed", c, extra)
+                        need_confirm.setdefault(ks[0], []).append((pi, suf))
         # seeds observed once only: one more interpreter with that seed, same program list (same histories)
         for k, items in sorted(need_confirm.items())[: ctx.pick(2, 4)]:
             env2 = dict(envs[k], junk_import=rng.randrange(1000, 100000), junk_parse=rng.randrange(100, 3000), junk_seed=rng.randrange(1 << 30))
@@ -734,15 +762,13 @@ def shard(ctx) -> None:
 
     for pi, p in enumerate(progs):
         for desc, H, r in p.hist:
-            c = classify(p.rep[0], r)
-            if c is not None:
+            for c in classify_all(p.rep[0], r):
                 history_candidate(p, c, [corpus.WARMUP if j == -1 else progs[j].src for j in H], "history:" + desc.split("-")[0])
     if rev is not None and BASE_SEED in groups and groups[BASE_SEED][0] == 0:
         for pi, p in enumerate(progs):
-            c = classify(p.child[0], rev[pi])
-            if c is not None:
-                # history of P in the reversed interpreter: warm-up, then the programs after P in reverse order
-                hs = [corpus.WARMUP] + [progs[j].src for j in range(len(progs) - 1, pi, -1) if progs[j].mode == p.mode]
+            # history of P in the reversed interpreter: warm-up, then the programs after P in reverse order
+            hs = [corpus.WARMUP] + [progs[j].src for j in range(len(progs) - 1, pi, -1) if progs[j].mode == p.mode]
+            for c in classify_all(p.child[0], rev[pi]):
                 history_candidate(p, c, hs, "history:reversed-interpreter")
 
     # (e) the CLI, sampled
@@ -809,8 +835,9 @@ def shard(ctx) -> None:
             ctx.count("unstable_programs")
             ctx.histo("unstable_by_family", fam)
             if not p.found:
-                ctx.violation("internal|unattributed-difference", "renderings differ but no axis was attributed",
-                              {"axis": "repeat", "source": p.src, "mode": p.mode})
+                # the only renderings that are not compared with each other are this process's and the child
+                # interpreters' (this process has an unrecorded history: pyanalyze keeps state outside the Checker)
+                ctx.count("programs_differing_only_between_this_process_and_children")
         else:
             ctx.count("stable_programs")
         for suf, (axis, c, extra) in sorted(p.found.items()):
@@ -846,9 +873,9 @@ def history_experiment(src: str, mode: str, hsrcs: list, suffix, minimise: bool 
             n += 1
         except ChildFailed:
             continue
-        c = classify(rA, rB)
-        if c is not None and (suffix is None or suffix_of(c) == suffix):
-            return c, Hc, n
+        for c in classify_all(rA, rB):
+            if suffix is None or suffix_of(c) == suffix:
+                return c, Hc, n
     return None, hsrcs, n
 
 
@@ -952,21 +979,23 @@ def replay(witness):
         return None
     for e in lay:
         r = child(e)
-        c = classify(r0, r) if r is not None else None
-        if c is not None and suffix_of(c) not in found:
-            add("layout", c, {"envs": [b, e]})
+        for c in (classify_all(r0, r) if r is not None else []):
+            if suffix_of(c) not in found:
+                add("layout", c, {"envs": [b, e]})
     if want in found:
         return result()
     for e in envs[1:] + more_seeds:
         r = child(e)
-        c = classify(r0, r) if r is not None else None
-        if c is None or suffix_of(c) in found:
-            continue
-        if e["hashseed"] == b["hashseed"]:
-            add("layout", c, {"envs": [b, e]})
-            continue
-        r2 = child(dict(e, junk_import=5000, junk_parse=500, junk_seed=7))
-        add("hashseed" if (r2 is None or same_wrt(c, r, r2)) else "layout", c, {"envs": [b, e]})
+        r2 = None
+        for c in (classify_all(r0, r) if r is not None else []):
+            if suffix_of(c) in found:
+                continue
+            if e["hashseed"] == b["hashseed"]:
+                add("layout", c, {"envs": [b, e]})
+                continue
+            if r2 is None:
+                r2 = child(dict(e, junk_import=5000, junk_parse=500, junk_seed=7)) or r
+            add("hashseed" if same_wrt(c, r, r2) else "layout", c, {"envs": [b, e]})
         if want in found:
             break
     return result()
